@@ -184,6 +184,18 @@ CHECKS = {
         "reconstructor and lexer and comparing with the model's prediction (a disagreement is a harness error); lexer model for the "
         "re-tokenisation. The production '# dns_resolver' can never be lexed (comment) and is outside 'accepted by the parser'.",
         ref="§4 C10"),
+    "C11": dict(
+        text="as_dict is interpreted over the grammar-table token stream of 12 profile skeletons covering every block kind, options, pairs, "
+        "data-transform / execute / BeaconGate lists, named and \"default\" variants, repeated options and empty blocks, with 1..2/3 "
+        "symbolic characters (any valid STRING body) in every literal: key set, key order, value order and every value (raw text for "
+        "options and pairs, decoded bytes for list blocks) are proved equal to an oracle computed from the tree. Profiles built through "
+        "the builder API with symbolic values give the expected tree, conform to the grammar and give the oracle dictionary. For every "
+        "history access;modify(;modify);access over {set_option, set_config_block, set_non_empty_config_block, direct tree edit} the "
+        "later view equals the oracle of the modified profile.",
+        note="Trusted: z3; symx; the grammar-table model of lark (validated in C10 on every production and here on every skeleton against "
+        "the real as_dict/as_text/from_text); hash(Tree) as a structural key (collisions assumed away). Literals with \\x/\\u or undefined "
+        "escapes inside list blocks are outside (C12). The oracle is silent on stage.transform-x86/x64 and process-inject.transform-x64.",
+        ref="§4 C11"),
 }
 
 NA = {}
